@@ -58,7 +58,8 @@ import core
 
 LEVEL = "proof"
 EXTRA_TARGETS = ["model/SettingsTie.vo", "model/SettingsRenderTie.vo", "model/SettingsValTie.vo",
-                 "model/SettingsMroTie.vo", "model/SettingsDetectTie.vo", "model/SettingsRouteTie.vo"]
+                 "model/SettingsMroTie.vo", "model/SettingsDetectTie.vo", "model/SettingsRouteTie.vo",
+                 "model/SettingsGeomTie.vo"]
 KINDS = {
     "rm": lambda root: f"(SRm {2 if root == 'kitty' else 3})",
     "fs": lambda root: "SFs",
@@ -428,6 +429,102 @@ def qop_term(o, n):
     return f"[QReq {q} {o['t']} {m} {others_term(o.get('others', {}))}]"
 
 
+# ---------------------------------------------------------------- the GEOMETRY of a render request
+
+GEO_KINDS = ["p", "s", "b", "g", "n", "q"]  # "b": a static file LARGER than the small renders
+
+
+def gen_geo(rng):
+    """[columns, lines] of an instance's render: the boundary (exactly one line, exactly one
+    column) most of the time."""
+    return [rng.choice([1, 1, 2, 3, 8]), rng.choice([1, 1, 1, 2, 2, 3])]
+
+
+def gen_geom_case(rng, size):
+    """Histories of render-method settings at every level interleaved with renders of instances
+    whose render is 1 / 2 / 3 lines high and 1 / 2 / 3 / 8 columns wide, for both styles, on
+    sources smaller and larger (in pixels) than the render, read_from_file on (default) and off;
+    what every render TRANSMITS is judged."""
+    root = rng.choice(["kitty", "iterm2", "iterm2"])
+    nm = 2 if root == "kitty" else 3
+    nc = rng.randint(1, 3)
+    par = [0] + [rng.randrange(c) for c in range(1, nc)]
+    ni = rng.randint(1, 3)
+    icls = [rng.randrange(nc) for _ in range(ni)]
+    kinds = [rng.choice(GEO_KINDS) for _ in range(ni)]
+    geo = [gen_geo(rng) for _ in range(ni)]
+    if not any(g[1] == 1 for g in geo):
+        geo[0][1] = 1
+    ops = []
+    for _ in range(rng.randint(2, size)):
+        x = rng.random()
+        if x < 0.55:
+            ops.append(gen_render(rng, root, kinds, ni))
+        elif x < 0.6 and root == "iterm2":
+            ops.append({"s": "nam", "op": rng.choice(["cs", "cs", "cu"]), "t": rng.randrange(nc),
+                        "v": rng.choice(nam_values()), "pres": 0})
+        else:
+            kind = rng.choices(["cs", "cu", "is", "iu"], [4, 2, 3, 1.5])[0]
+            o = {"s": "rm", "op": kind, "t": rng.randrange(nc) if kind in ("cs", "cu") else rng.randrange(ni),
+                 "pres": rng.randrange(6)}
+            if kind in ("cs", "is"):
+                o["v"] = rng.randrange(nm) if rng.random() < 0.9 else rng.choice(VALUES["rm"])
+            ops.append(o)
+    return {"root": root, "par": par, "icls": icls, "src": kinds, "geo": geo,
+            "rff": rng.choice([None, None, 0, 1]) if root == "iterm2" else None, "ops": ops}
+
+
+def geom_corpus():
+    """Both styles x read_from_file default / off: instances of every static source kind and an
+    animated one with renders one line / one column / two lines high, the render method set
+    nowhere / on the class (WHOLE) / on the instance (LINES), EVERY per-call value."""
+    out = []
+
+    def rd(t, m=None, f=0, pres=0):
+        return {"s": "rd", "op": "r", "t": t, "m": m, "f": f, "pres": pres}
+
+    for root, nm in (("kitty", 2), ("iterm2", 3)):
+        for rff in ((None, 0) if root == "iterm2" else (None,)):
+            for geos in ([[8, 1], [3, 1], [2, 1], [1, 1]], [[1, 2], [1, 1], [3, 2], [2, 1]]):
+                ops = []
+                for setup in ([], [{"s": "rm", "op": "cs", "t": 0, "v": 1, "pres": 0}],
+                              [{"s": "rm", "op": "is", "t": t, "v": 0, "pres": t} for t in range(4)]):
+                    ops += setup
+                    for t in range(4):
+                        ops += [rd(t, m, pres=t + (m or 0)) for m in [None] + list(range(nm))]
+                    ops.append(rd(3, 0, 1))
+                    ops.append(rd(3, nm - 1, 1))
+                out.append({"root": root, "par": [0, 0], "icls": [1, 0, 1, 1], "src": ["p", "s", "b", "g"],
+                            "geo": geos, "rff": rff, "ops": ops})
+    return out
+
+
+def geom_term(row):
+    cols, lines, cw, ch, ow, oh = row[:6]
+    return (f"{{| height_lines := {lines}; width_cols := {core.z(cols)}; cell_w := {core.z(cw)}; "
+            f"cell_h := {core.z(ch)}; ori_w := {core.z(ow)}; ori_h := {core.z(oh)} |}}")
+
+
+def geop_term(o, n, ginfo):
+    """One operation of a history whose renders carry their geometry, as a list of SettingsGeom.geop."""
+    if o["s"] == "rm":
+        return f"map GMeth (doc_op (SRm {n}) ({vop_term(o)}))"
+    if o["s"] == "nam":
+        return f"map GLim (doc_gop ({vop_term(o)}))"
+    m = "None" if o.get("m") is None else f"(Some {core.z(o['m'])})"
+    return f"[GRender {o['t']} {m} {'true' if o.get('f') else 'false'} {geom_term(ginfo[o['t']])}]"
+
+
+def lines_whole_differ(root, row, animated, rff):
+    """Do the documented payloads of LINES and WHOLE differ for this geometry (the Python twin of
+    SettingsGeom.doc_payload, used for the histogram / the non-triviality count only)?"""
+    cols, lines, cw, ch, ow, oh, readable = row
+    fits = ow * oh <= cols * cw * lines * ch
+    verb = bool(root == "iterm2" and rff and not animated and readable and fits)
+    whole = [((ow, oh) if fits else (cols * cw, lines * ch)) + (verb,)]
+    return [(cols * cw, ch, False)] * lines != whole
+
+
 # ---------------------------------------------------------------- class hierarchies (multiple inheritance)
 
 # the library's own classes, always the first five of a hierarchy
@@ -717,8 +814,28 @@ def evaluate(cases, tag="c20", only=None):
     rterms, rowner = [], []
     mterms, mowner = [], []
     qterms, qowner = [], []
+    gterms, gowner = [], []
+    geo_errors = []
     for i, (c, r) in enumerate(zip(cases, impl)):
-        if any("route" in o for o in c["ops"]):
+        if c.get("geo"):
+            if only is None or "render-method-used" in only:
+                rops = [o for o in c["ops"] if o["s"] in ("rm", "nam", "rd")]
+                nm = 2 if c["root"] == "kitty" else 3
+                rff = 1 if c.get("rff") is None else c["rff"]
+                if [x[:2] for x in r["ginfo"]] != c["geo"] or (r["rff"] is not None and set(r["rff"]) != {rff}):
+                    geo_errors.append(f"case {i}: the instances do not have the requested geometry / read_from_file: "
+                                      f"{r['ginfo']} {r['rff']} vs {c['geo']} {rff}")
+                gterms.append(
+                    f"{{| gc_style := {'SKitty' if c['root'] == 'kitty' else 'SITerm2'}; "
+                    f"gc_par := {core.coq_list(c['par'])}; gc_icls := {core.coq_list(c['icls'])}; "
+                    f"gc_anim := {core.coq_list(r['srcs'], lambda x: 'true' if x[0] else 'false')}; "
+                    f"gc_size := {core.coq_list(r['srcs'], lambda x: core.z(x[1]))}; "
+                    f"gc_rff := {'true' if rff else 'false'}; "
+                    f"gc_readable := {core.coq_list(r['ginfo'], lambda x: 'true' if x[6] else 'false')}; "
+                    f"gc_ops := concat {core.coq_list(rops, lambda o: geop_term(o, nm, r['ginfo']))}; "
+                    f"gc_obs := {zll(r['renders'])} |}}")
+                gowner.append(i)
+        elif any("route" in o for o in c["ops"]):
             if only is None or "render-method-used" in only:
                 rops = [o for o in c["ops"] if o["s"] in ("rm", "nam", "rd")]
                 nm = 2 if c["root"] == "kitty" else 3
@@ -766,15 +883,19 @@ def evaluate(cases, tag="c20", only=None):
     mheader = header.replace("model.SettingsValTie.", "model.SettingsValTie model.SettingsMro model.SettingsMroTie.")
     qheader = header.replace("model.SettingsValTie.", "model.SettingsValTie model.SettingsRender model.SettingsRenderTie "
                                                       "model.SettingsRoute model.SettingsRouteTie.")
+    gheader = header.replace("model.SettingsValTie.", "model.SettingsValTie model.SettingsRender model.SettingsRenderTie "
+                                                      "model.SettingsRoute model.SettingsGeom model.SettingsGeomTie.")
     jobs = [(tag, header, terms, "vcase", "vbad cases"), (tag + "r", rheader, rterms, "rcase", "rbad cases"),
-            (tag + "m", mheader, mterms, "mcase", "mbad cases"), (tag + "q", qheader, qterms, "qcase", "qbad cases")]
+            (tag + "m", mheader, mterms, "mcase", "mbad cases"), (tag + "q", qheader, qterms, "qcase", "qbad cases"),
+            (tag + "g", gheader, gterms, "gcase", "gbad cases")]
     from concurrent.futures import ThreadPoolExecutor
-    with ThreadPoolExecutor(max_workers=4) as ex:  # the four judgements side by side
+    with ThreadPoolExecutor(max_workers=5) as ex:  # the five judgements side by side
         judged = list(ex.map(lambda j: core.coq_shards(*j) if j[2] else ([], []), jobs))
-    for (bad, errs), own in zip(judged, (owner, rowner, mowner, qowner)):
+    errors += geo_errors
+    for (bad, errs), own in zip(judged, (owner, rowner, mowner, qowner, gowner)):
         errors += errs
         for idx, code in bad:
-            if own is rowner or own is qowner:
+            if own is rowner or own is qowner or own is gowner:
                 status[own[idx]].append(("render-method-used", code))
             else:
                 i, s = own[idx]
@@ -1056,8 +1177,12 @@ def describe(case):
         return (f"root={case['root']} classes=[{'; '.join(decl)}] below BaseImage <- GraphicsImage <- "
                 f"{cls_name(case, ROOT)}, BaseImage <- TextImage <- BlockImage; "
                 f"inst_classes={[cls_name(case, c) for c in case['icls']]} ops=[{', '.join(ops)}]")
+    geo = ""
+    if case.get("geo"):
+        geo = (f"inst_render_size(columns x lines)={['%dx%d' % tuple(g) for g in case['geo']]} cell=10x20px "
+               f"read_from_file={'default' if case.get('rff') is None else bool(case['rff'])} ")
     return (f"root={case['root']} parents={case['par']} inst_classes={case['icls']} "
-            f"inst_sources={case.get('src')} ops=[{', '.join(map(one, case['ops']))}]")
+            f"inst_sources={case.get('src')} {geo}ops=[{', '.join(map(one, case['ops']))}]")
 
 
 def run(ctx):
@@ -1081,6 +1206,8 @@ def run(ctx):
         # render REQUESTS by every route (drawn last, so that all the others stay the same cases)
         qcorpus = route_corpus()
         cases += qcorpus + [gen_route_case(rng, 8 if i % 3 else 16) for i in range(40 if ctx.quick else 800)]
+        # renders whose GEOMETRY is at the boundary (drawn after everything else)
+        cases += geom_corpus() + [gen_geom_case(rng, 6 if i % 3 else 12) for i in range(30 if ctx.quick else 600)]
     src_info()
     lower_bad = list(_PROBE.get("lower_bad", []))
     from concurrent.futures import ThreadPoolExecutor
@@ -1097,7 +1224,7 @@ def run(ctx):
     hist = {"root": {}, "classes": {}, "ops_len": {}, "op_kinds": {}, "settings": {}, "rejected_ops": 0, "accepted_ops": 0,
             "inst_sources": {}, "renders": {}, "render_requests": {}, "set_values": {}, "outcomes": {},
             "hierarchy_cases": 0, "hierarchy_shapes": {}, "hierarchy_targets": {},
-            "route_requests": {}, "route_frames": {}}
+            "route_requests": {}, "route_frames": {}, "geometry_renders": {}}
     distinct = set()
 
     def bump(key, name):
@@ -1141,7 +1268,21 @@ def run(ctx):
         for kd in c.get("src", []):
             hist["inst_sources"][kd] = hist["inst_sources"].get(kd, 0) + 1
         rds = [o for o in c["ops"] if o["s"] == "rd"]
-        if any("route" in o for o in rds):
+        if c.get("geo"):
+            rff = 1 if c.get("rff") is None else c["rff"]
+            for o, row in zip(rds, r.get("renders", [])):
+                gi = r["ginfo"][o["t"]]
+                differ = lines_whole_differ(c["root"], gi, r["srcs"][o["t"]][0], rff)
+                bump("geometry_renders", f"{c['root']},lines={min(gi[1], 3)}{'+' if gi[1] >= 3 else ''}")
+                bump("geometry_renders", f"columns={'1' if gi[0] == 1 else '>1'}")
+                bump("geometry_renders", f"src={c['src'][o['t']]},rff={'default' if c.get('rff') is None else c['rff']}")
+                bump("geometry_renders", f"lines={'1' if gi[1] == 1 else '>1'},LINES/WHOLE payloads "
+                                         f"{'differ' if differ else 'coincide'}")
+                bump("geometry_renders", f"transmissions={(len(row) - 1) // 3},verbatim={int(any(row[3::3]))}")
+                if gi[1] == 1 and differ:
+                    distinct.add(core.sig([c["root"], gi, c["src"][o["t"]], rff, o.get("m"), o.get("f")]))
+            rds = []
+        elif any("route" in o for o in rds):
             # requests: one row per rendered frame
             for o in rds:
                 if "route" in o:
@@ -1193,6 +1334,7 @@ def run(ctx):
                 "signature": core.sig({"root": small["root"], "icls": small["icls"],
                                        **({"hier": small["hier"]} if "hier" in small else {"par": small["par"]}),
                                        "src": small.get("src"),
+                                       **({"geo": small["geo"], "rff": small.get("rff")} if small.get("geo") else {}),
                                        "ops": [(o["s"], o["op"], o["t"], o.get("val"), o.get("m"), o.get("f"))
                                                + ((o["route"], sorted(o.get("others", {}).items())) if "route" in o else ())
                                                for o in small["ops"]]}),
@@ -1292,8 +1434,20 @@ def run(ctx):
                 "with render-method operations at every level (and limit operations on iterm2); the draws are captured "
                 "on a write-recording StringIO with sleep() a no-op and EVERY frame is decoded into the method used; "
                 "the per-frame list is judged against SettingsRoute.qtrace and spec_qtrace.  "
+                "RENDER GEOMETRY (corpus + random, forests of 1-3 classes, 1-3 instances, both styles): instances whose "
+                "render is 1 / 2 / 3 lines high and 1 / 2 / 3 / 8 columns wide (cell 10x20 px; one line / one column most "
+                "of the time), sourced from a 4x4 PIL image, 8x8 static / animated files and a 40x30 static file (larger "
+                "than the small renders), read_from_file default (on) / off / on, rendered by str / format / the first "
+                "frame of an ImageIterator with every per-call method, interleaved with render-method operations at every "
+                "level; every transmitted image is DECODED (iterm2: PIL pixel size of each payload + bytes equal to the "
+                "source file; kitty: declared pixel columns / rows verified against the length of the decompressed pixel "
+                "data) and the list [warned; (pixel width, pixel height, verbatim)*] of every render is judged against "
+                "SettingsGeom.gtrace and spec_gtrace (the documented payload of the documented method), so the method "
+                "used is decided by the payloads, not by the framing, which coincides for one-line renders.  "
                 "Non-trivial: >= 2 classes, >= 3 ops, a class-level set and some unset (detection cases: >= 2 classes, "
-                ">= 3 steps, a class-level set and a detection step); distinct by full case hash.",
+                ">= 3 steps, a class-level set and a detection step; geometry cases: each distinct (style, geometry, "
+                "source, read_from_file, per-call method, frame) ONE-LINE render for which the documented payloads of "
+                "LINES and WHOLE differ); distinct by full case hash.",
         "samples": [describe(c) for c in cases[:1] + cases[len(CORPUS):len(CORPUS) + 1] + cases[ncorpus:ncorpus + 2]
                     + ([] if ctx.replay else cases[-2:])]
                    + [describe_detect(c) for c in dcases[:1] + dcases[-2:]],
@@ -1313,6 +1467,9 @@ def run(ctx):
             "str.lower() maps no code point outside A-Z onto letters of the render-method names (checked over all "
             "code points of the running Python by the driver's probe at every run)",
             "a source's 'animated' flag, data size and number of frames are facts about the file (PIL), inputs of the model",
+            "geometry cases: the rendered size in cells and the original pixel size are read back from the instance "
+            "(sizing is C04's business) and compared with what the generator asked for; cell size 10x20 px; a file source "
+            "of the generated kinds is readable and of a mode the verbatim read accepts (RGB); alpha is the default",
             "requests by route: kitty as version 0.30.0, iterm2 as wezterm; repeat=1, cached=False; one write() to stdout "
             "that contains an image transmission = one rendered frame",
             "support detection: the terminal is represented by six identities (what get_terminal_name_version() returns "
@@ -1324,5 +1481,8 @@ def run(ctx):
         "trusted": ["impl driver reads _render_method (no public getter) and confirms it by the framing of real renders",
                     "decoding of a render into the method used: iterm2 LINES = one 'height=1' transmission per line, "
                     "WHOLE = one transmission of a single-frame image, ANIM = one transmission whose payload is "
-                    "byte-for-byte the animated source file; kitty LINES/WHOLE by the number of transmissions"],
+                    "byte-for-byte the animated source file; kitty LINES/WHOLE by the number of transmissions "
+                    "(renders two lines high only; for the geometry cases the payloads themselves are judged)",
+                    "decoding of a transmitted image: PIL's decoder for iterm2 payloads (PNG / JPEG / GIF), "
+                    "base64 + zlib for kitty payloads"],
     }
